@@ -121,6 +121,9 @@ int KSI_Signature_verifyWithPolicy(KSI_Signature *sig, const KSI_DataHash *docHs
 		context.docAggrLevel = rootLevel;
 	} else {
 		context = *verificationContext;
+		/* A document hash or level given explicitly must not be dropped because a context is given as well. */
+		if (docHsh != NULL) context.documentHash = docHsh;
+		if (rootLevel != 0) context.docAggrLevel = rootLevel;
 	}
 	context.signature = sig;
 
